@@ -1,4 +1,4 @@
-#[allow(dead_code, unused_imports, non_camel_case_types, clippy::all)]
+#[allow(warnings, clippy::all)]
 mod corpus {
     include!(concat!(env!("SIM_CORPUS_DIR"), "/c05.rs"));
 }
